@@ -303,6 +303,11 @@ type runner struct {
 	mu       sync.Mutex
 	outcomes map[int]*outcome // by index into groups
 	restarts int
+
+	// printSolo: ask the hosts for the solo result lines (-printsolo) and keep them (-solo FILE): the check holds them
+	// against the Lean model, a reference that does not depend on what the host PROCESS did before
+	printSolo bool
+	soloLines []string
 }
 
 type job struct {
@@ -315,6 +320,9 @@ type job struct {
 func (r *runner) runHost(variant string, groups []*group, idx []int) (answers []string, stderr []byte, exit int, err error) {
 	cmd := exec.Command(filepath.Join(r.hosts, variant),
 		"-rounds", strconv.Itoa(r.rounds), "-extra", strconv.Itoa(r.extra), "-iters", strconv.Itoa(r.iters), "-seed", strconv.FormatUint(r.seed, 10))
+	if r.printSolo {
+		cmd.Args = append(cmd.Args, "-printsolo")
+	}
 	cmd.Env = append(os.Environ(), "GORACE=halt_on_error=1 exitcode=66")
 	var in bytes.Buffer
 	for _, i := range idx {
@@ -327,6 +335,10 @@ func (r *runner) runHost(variant string, groups []*group, idx []int) (answers []
 	for _, l := range strings.Split(string(out), "\n") {
 		if strings.HasPrefix(l, "group ") {
 			answers = append(answers, l)
+		} else if r.printSolo && strings.HasPrefix(l, "res ") {
+			r.mu.Lock()
+			r.soloLines = append(r.soloLines, l)
+			r.mu.Unlock()
 		}
 	}
 	exit = 0
@@ -423,6 +435,7 @@ func main() {
 		pvgen     = flag.String("pvgen", "/verif/build/bin/pvgen", "path to the pvgen binary")
 		out       = flag.String("out", "/verif/build/conc_fail", "directory receiving the input of failing groups")
 		dump      = flag.String("dump", "", "write all groups to this file")
+		soloOut   = flag.String("solo", "", "write the solo result lines (res ...) of every group to this file")
 		groupfile = flag.String("groupfile", "", "run the groups of this file instead of generating groups")
 		chunk     = flag.Int("chunk", 8, "groups per host process")
 		norun     = flag.Bool("norun", false, "generate (and -dump) only")
@@ -524,7 +537,7 @@ func main() {
 		}
 	}
 
-	r := &runner{hosts: *hosts, rounds: *rounds, extra: ex, iters: *iters, seed: *seed, outcomes: map[int]*outcome{}}
+	r := &runner{hosts: *hosts, rounds: *rounds, extra: ex, iters: *iters, seed: *seed, outcomes: map[int]*outcome{}, printSolo: *soloOut != ""}
 	ch := make(chan job)
 	var wg sync.WaitGroup
 	for w := 0; w < *jobs; w++ {
@@ -652,6 +665,11 @@ func main() {
 				rep.CrashList = append(rep.CrashList, crashRep{GID: g.GID, Variant: g.Variant, Exit: o.exit,
 					Stderr: head(o.stderr, 40), GroupFile: save(g, "crash")})
 			}
+		}
+	}
+	if *soloOut != "" {
+		if err := os.WriteFile(*soloOut, []byte(strings.Join(r.soloLines, "\n")+"\n"), 0o644); err != nil {
+			usage("%v", err)
 		}
 	}
 	rep.WallS = float64(time.Since(start).Milliseconds()) / 1000
